@@ -110,7 +110,7 @@ Proof.
     + destruct (klookup (key_of (cq_q c)) resolved) as [r|].
       * specialize (IH resolved s). destruct (round_clients p pn fb cache0 cs resolved s) as [os s'].
         destruct IH as [L F]. cbn [length zip forallb fst snd]. rewrite waiter_outcome_id, F. auto.
-      * destruct (resolve fb (key_of (cq_q c)) s) as [r s1].
+      * destruct (resolve fb (cq_q c) s) as [r s1].
         specialize (IH ((key_of (cq_q c), r) :: resolved) s1).
         destruct (round_clients p pn fb cache0 cs _ s1) as [os s'].
         destruct IH as [L F]. cbn [length zip forallb fst snd]. rewrite waiter_outcome_id, F. auto.
@@ -137,19 +137,12 @@ Proof.
     rewrite F, F2, L, Nat.eqb_refl. auto.
 Qed.
 
-(* refutation witness: the upstream answers a.example's query (right ID) with b.example's answer *)
 Definition ctl_full_ok (packed pnew fallback : bool) (udp tcp : list (ckey * list fres))
            (rounds : list (list client_query)) : bool :=
   let '(outs, s) := run_rounds packed pnew fallback {| c_cache := []; c_udp := udp; c_tcp := tcp; c_calls := [] |} rounds in
   forallb (fun p => forallb (fun q => out_ok (fst q) (snd q)) (zip (fst p) (snd p))) (zip rounds outs)
   && cache_ok (map (fun e => (fst e, ce_ans (snd e))) (c_cache s)).
 
-Lemma C09_reply_question_cache_refuted_proof :
-  exists packed pnew fallback udp tcp rounds, ctl_full_ok packed pnew fallback udp tcp rounds = false.
-Proof.
-  exists false, false, false, [((1, 1), [FMsg (wm2 9)])], [], [[{| cq_id := 3; cq_q := wq1 |}]].
-  vm_compute. reflexivity.
-Qed.
 
 (* ---------------- one upstream resolution per question and round ---------------- *)
 Lemma ckey_eqb_eq : forall a b, ckey_eqb a b = true <-> a = b.
@@ -161,9 +154,9 @@ Qed.
 Lemma klookup_cons_eq : forall {V} k (v : V) l, klookup k ((k, v) :: l) = Some v.
 Proof. intros. cbn. rewrite (proj2 (ckey_eqb_eq k k) eq_refl). auto. Qed.
 
-Lemma resolve_calls : forall fb k s, c_calls (snd (resolve fb k s)) = c_calls s ++ [k].
+Lemma resolve_calls : forall fb lq s, c_calls (snd (resolve fb lq s)) = c_calls s ++ [key_of lq].
 Proof.
-  intros fb k s. unfold resolve.
+  intros fb lq s. unfold resolve. set (k := key_of lq).
   destruct (pop k (c_udp s)) as [r1 udp'].
   destruct r1 as [| |m]; cbn [c_calls snd];
     try (destruct fb; [destruct (pop k (c_tcp s)) as [r2 tcp']; cbn [c_tcp c_calls];
@@ -190,8 +183,8 @@ Proof.
       * specialize (IH resolved s). destruct (round_clients p pn fb cache0 cs resolved s) as [os s'].
         cbn [snd] in *. destruct IH as (ad & E & ND & F). exists ad. split; [exact E|split; [exact ND|]].
         intros k Hk. destruct (F k Hk) as [A (c' & Hc & Hk')]. split; auto. exists c'; split; auto; right; auto.
-      * pose proof (resolve_calls fb (key_of (cq_q c)) s) as RC.
-        destruct (resolve fb (key_of (cq_q c)) s) as [r s1]. cbn [snd] in RC.
+      * pose proof (resolve_calls fb (cq_q c) s) as RC.
+        destruct (resolve fb (cq_q c) s) as [r s1]. cbn [snd] in RC.
         specialize (IH ((key_of (cq_q c), r) :: resolved) s1).
         destruct (round_clients p pn fb cache0 cs _ s1) as [os s']. cbn [snd] in *.
         destruct IH as (ad & E & ND & F).
@@ -240,11 +233,10 @@ Proof.
   - exact C.
 Qed.
 
-Lemma C09_forwarder_lifecycle_partial_proof : forall evs,
-  f_window (frun evs) = false -> fwd_ok (fwd_obs_of (frun evs)) = true.
+Lemma C09_forwarder_lifecycle_proof : forall evs, fwd_ok (fwd_obs_of (frun evs)) = true.
 Proof.
-  intros evs W. destruct (C09_forwarder_close_once_proof evs) as (A & B & C).
-  pose proof (C09_forwarder_no_close_in_flight_partial_proof evs W) as Bad.
+  intros evs. destruct (C09_forwarder_close_once_proof evs) as (A & B & C).
+  pose proof (C09_forwarder_no_close_in_flight_proof evs) as Bad.
   unfold fwd_ok, fwd_obs_of; cbn [fo_closes fo_retired fo_quiescent fo_retire_done fo_close_in_flight].
   rewrite Bad. cbn [negb andb].
   destruct (f_closed (frun evs)) eqn:Cl.
@@ -252,10 +244,4 @@ Proof.
     repeat match goal with |- context [if ?b then _ else _] => destruct b end; reflexivity.
   - cbn. destruct (forallb user_quiet _ && forallb ret_quiet _) eqn:Q; cbn; auto.
     destruct (existsb is_rdone _) eqn:D; cbn; auto.
-Qed.
-
-Lemma C09_forwarder_lifecycle_refuted_proof : exists evs, fwd_ok (fwd_obs_of (frun evs)) = false.
-Proof.
-  exists [FSpawnU; FSpawnU; FSpawnR; FU 0; FU 0; FU 0; FU 0; FU 1; FU 1; FU 1; FR 0; FR 0; FU 0]%nat.
-  vm_compute. reflexivity.
 Qed.
